@@ -7,11 +7,12 @@
 #define FCPPT_IO_WRITE_HPP_INCLUDED
 
 #include <fcppt/cast/size.hpp>
-#include <fcppt/cast/to_char_ptr.hpp>
 #include <fcppt/cast/to_signed.hpp>
-#include <fcppt/endianness/convert.hpp>
 #include <fcppt/config/external_begin.hpp>
+#include <algorithm>
+#include <array>
 #include <bit>
+#include <cstring>
 #include <ios>
 #include <ostream>
 #include <type_traits>
@@ -42,11 +43,20 @@ void write(std::ostream &_stream, Type const &_value, std::endian const _format)
 {
   static_assert(std::is_arithmetic_v<Type>, "io::write can only be used on arithmetic types");
 
-  Type const tmp(fcppt::endianness::convert(_value, _format));
+  // The bytes are reordered in a byte array and not in an object of type Type:
+  // A floating-point object holding a byte-swapped value does not survive being copied
+  // (long double on x86 is copied as 10 of its 16 bytes).
+  std::array<char, sizeof(Type)> bytes{};
+
+  std::memcpy(bytes.data(), &_value, sizeof(Type));
+
+  if (_format != std::endian::native)
+  {
+    std::reverse(bytes.begin(), bytes.end());
+  }
 
   _stream.write(
-      fcppt::cast::to_char_ptr<char const *>(&tmp),
-      fcppt::cast::size<std::streamsize>(fcppt::cast::to_signed(sizeof(Type))));
+      bytes.data(), fcppt::cast::size<std::streamsize>(fcppt::cast::to_signed(sizeof(Type))));
 }
 
 }
